@@ -47,7 +47,7 @@ CLAIMED = {
     },
 
     "C15": {
-        "text": 'Decided on every run: compress partitions the columns (complement over the same sequence, both slices from the same re-indexed frame), ids are reset, shifted and advanced cumulatively by table length, the id column written is the one read at both decompress sites and dropped only after all merges, the decompress merge matches ids on the left with the index on the right over exactly one source row, and unordered compress results are re-ordered by input key order.',
+        "text": 'Decided on every run: compress partitions the columns (complement over the same sequence, both slices from the same re-indexed frame), ids are reset, shifted and advanced cumulatively by table length, the id column written is the one read at both decompress sites and dropped only after all merges, the decompress merge matches ids on the left with the index on the right over exactly one source row, and unordered compress results are re-ordered by input key order. No function on the join path that handles the compressed index narrows a column (row ids keep their integer width).',
         "design_ref": "DESIGN.md section 3, C15", "note": _NOTE,
         "technique": 'static analysis: partition/complement rule, progress rule on the id counter, writer/reader key agreement, ordering via CFG dominance (ast)',
     },
@@ -94,7 +94,7 @@ CLAIMED = {
     },
     "C28": {
         "text": "Decided on every run: the reduction operator of every accumulation in Mappings.energy/actions/latency/resource_usage (sum vs max per axis, guarded by the "
-                "per_* flags, component axis before Einsum axis) and the presence of both column families (tensor-keyed incl. None for compute; per-component leak) in energy(). In the loops that scale / gather per-action counts every loop-local is assigned on all paths of the iteration before it is read (no value from the previous iteration).",
+                "per_* flags, component axis before Einsum axis) and the presence of both column families (tensor-keyed incl. None for compute; per-component leak) in energy(). In the loops that scale / gather per-action counts every loop-local is assigned on all paths of the iteration before it is read (no value from the previous iteration). Scaling of counts is unconditional and the energy helpers never remove entries from their argument dicts (the Total pass and the breakdown pass see the same inputs).",
         "design_ref": "DESIGN.md section 3, C28", "note": _NOTE,
         "technique": "static analysis: accumulation-statement classification against an operator table, control-dependence on flags (ast/CFG)",
     },
@@ -102,7 +102,7 @@ CLAIMED = {
         "text": "Decided on every run: progress-or-raise of the topological loop (no path back to the loop head without shrinking the work list, no exit with unsorted "
                 "fields, no-candidate => EvaluationError), whole-word escaped dependency edges in the right direction, evaluation in the computed order with "
                 "publish-on-every-path, copy-on-entry scoping for every caller of the evaluator plus a census of all symbol-table stores, and shadowing order in "
-                "eval() and the arch post-call. Right level: cycles, key orders and scopes are quantified over all specs; termination and scoping are CFG/def-use facts.",
+                "eval() and the arch post-call. Right level: cycles, key orders and scopes are quantified over all specs; termination and scoping are CFG/def-use facts. Attributes of an evaluated sub-object are published into the symbol table unconditionally (inner names shadow outer ones).",
         "design_ref": "DESIGN.md section 3, C21", "note": _NOTE,
         "technique": "static analysis: CFG path/dominance rules (progress, must-pass-through), regex-argument shape, who-may-write census (ast)",
     },
